@@ -16,7 +16,7 @@ ASSUMPTIONS = [LEVEL_NOTE]
 
 
 def plan(tier):
-    return {"n": 100 if tier == "quick" else 2000, "floor": 30 if tier == "quick" else 500}
+    return {"n": 100 if tier == "quick" else 400, "floor": 30 if tier == "quick" else 100}
 
 
 def rule(tier):
